@@ -74,9 +74,13 @@ class Var:
         self.vals = []       # candidate values (np arrays of length dim)
 
     def params(self):
+        """get_conditioning_variables(): the mutable variables that are None, then the arguments of the callables"""
         out = []
         for a in ATTR_ORDER[self.family]:
-            if a in self.attrs:
+            if a in self.attrs and getattr(self.attrs[a], "none", False):
+                out.append(a)
+        for a in ATTR_ORDER[self.family]:
+            if a in self.attrs and not getattr(self.attrs[a], "none", False):
                 for p in self.attrs[a].parents:
                     if p not in out:
                         out.append(p)
@@ -90,6 +94,48 @@ def _imat(rng, r, c):
 def _named_lambda(parents, fn):
     src = "lambda " + ", ".join(parents) + ": _f(" + ", ".join(parents) + ")"
     return eval(src, {"_f": fn})
+
+
+def rename_to_attr(rng, vs):
+    """Input class: a hyper-parameter called like the mutable variable it enters (`std=lambda std: 0.1 + std`), or standing
+    directly in a mutable variable that is None (`Gamma(shape=None, ...)` with a variable called `shape`).  A variable is only
+    renamed when, in every child that HAS a mutable variable of that name, it enters through exactly that variable."""
+    cands = []
+    for p in vs:
+        for c in vs:
+            for a, sp in c.attrs.items():
+                if p.name in sp.parents:
+                    cands.append((p, a))
+    rng.shuffle(cands)
+    for p, new in cands:
+        if new in p.attrs or any(v.name == new for v in vs):
+            continue
+        ok = True
+        for c in vs:
+            used = [a for a, sp in c.attrs.items() if p.name in sp.parents]
+            if new in c.attrs and used and used != [new]:
+                ok = False
+            if new in c.attrs and not used and c.attrs[new].parents:
+                pass
+        if not ok:
+            continue
+        old = p.name
+        for c in vs:
+            for a, sp in c.attrs.items():
+                if old in sp.parents:
+                    sp.parents = [new if t == old else t for t in sp.parents]
+                    if a == new:
+                        if (len(sp.parents) == 1 and sp.wrap is None and (getattr(sp, "identity", False) or c.family == "Gamma" and p.kind == "pos")
+                                and rng.random() < 0.5 and not getattr(sp, "mats", None)):
+                            sp.none = True          # the variable itself: attribute None
+                            sp.fn = (lambda x: x) if p.kind != "pos" else (lambda s: float(np.asarray(s).reshape(-1)[0]))
+                            sp.identity = p.kind != "pos"
+                            p.plain = True
+                        elif p.kind == "pos" and sp.wrap is None and not getattr(sp, "mats", None):
+                            sp.fn = (lambda *v, f=sp.fn: 0.25 + f(*v))     # never the identity
+        p.name = new
+        return new
+    return None
 
 
 def gen_graph(rng, thorough):
@@ -194,12 +240,13 @@ def gen_graph(rng, thorough):
         elif r < 0.32 and v.kind == "pos":
             a, b = np.array([1e-9]), np.array([2e-9])       # differ by less than allclose's atol
         v.vals = [a, b]
+    attr_named = rename_to_attr(rng, vs) if rng.random() < 0.3 else None
     # geometries: any variable that is not the input of a wrapped cuqi Model (whose domain geometry would have to match)
     model_inputs = {p for w in vs for sp in w.attrs.values() if sp.wrap for p in sp.parents}
     for v in vs:
         if v.name not in model_inputs and v.family not in ("GMRF", "LMRF") and rng.random() < 0.3:
             v.geom = rng.choice(GEOMS)
-    return vs, shape
+    return vs, shape + ("+attrname" if attr_named else "")
 
 
 def build_density(cuqi, v):
@@ -210,6 +257,8 @@ def build_density(cuqi, v):
     for attr, sp in v.attrs.items():
         if not sp.parents:
             kw[attr] = sp.value({})
+        elif getattr(sp, "none", False):
+            kw[attr] = None
         elif sp.wrap == "LinearModel":
             M = sp.mats[0]
             fwd = _named_lambda(sp.parents, lambda x, M=M: M @ np.asarray(x, dtype=float).reshape(-1))
@@ -364,7 +413,7 @@ class Program:
         """the value passed to the implementation; with vary=True sometimes in another representation of the same numbers"""
         x = v.vals[i]
         form = "default"
-        if vary and not getattr(self, "no_vary", False) and self.rng.random() < 0.3:
+        if vary and not getattr(self, "no_vary", False) and not getattr(v, "plain", False) and self.rng.random() < 0.3:
             integral = bool(np.all(x == np.round(x)))
             if v.dim > 1:
                 form = self.rng.choice(["list", "f32", "int" if integral else "list", "strided", "negstride", "readonly", "cuqiarray", "tuple"])
@@ -1070,6 +1119,24 @@ def corpus(cuqi):
     if pn.construct():
         s8(pn)
     out.append(pn)
+    # --- a hyper-parameter called like the mutable variable it enters, through a callable that is not the identity,
+    #     and one standing directly in a mutable variable that is None
+    def s9(p):
+        A0 = {"y": 0, "x": 0, "std": 0, "rate": 0}
+        p.call_logd([], [(n, 0) for n in ["rate", "y", "std", "x"]], "keyword", "valid", A0, reuse=False)
+        p.call_cond([], [("std", 1)], "keyword", "valid")
+        p.call_logd([], [("y", 0), ("x", 1), ("rate", 0)], "keyword", "valid", {"y": 0, "x": 1, "rate": 0}, reuse=False)
+        p.call_cond([], [("y", 0)], "keyword", "valid")
+        p.call_logd([("x", 0), ("rate", 1)], [], "positional", "valid", {"x": 0, "rate": 1}, reuse=False)
+        p.call_cond([], [("rate", 0)], "keyword", "valid")
+        p.call_logd([("x", 0)], [], "positional", "valid", {"x": 0}, reuse=False)
+        p.call_logd([], [("x", 1)], "keyword", "valid", {"x": 1}, reuse=False)
+    pa = Program(cuqi, random.Random("C01-corpus-9"), False, "corpus-9")
+    pa.no_vary = True
+    pa.setup(attrname_graph())
+    if pa.construct():
+        s9(pa)
+    out.append(pa)
     pm = Program(cuqi, random.Random("C01-corpus-7"), False, "corpus-7")
     pm.no_vary = True
     pm.setup(multi_graph())
@@ -1077,6 +1144,26 @@ def corpus(cuqi):
         s7(pm)
     out.append(pm)
     return out
+
+
+def attrname_graph():
+    """y | x ; x | std ~ Normal(0, std=lambda std: 0.1 + std) ; std | rate ~ Gamma(2, rate=None) ; rate ~ Normal(1, 0.5)
+    (a variable must not be called like a mutable variable of its OWN distribution: `Gamma(3, 2, name="rate")` cannot be fixed by keyword)"""
+    A = np.array([[1., 2., 0.], [.5, -1., 1.], [3., .25, -2.]])
+    y, x, sd, rt = Var("y", 3, "vec"), Var("x", 3, "vec"), Var("std", 1, "pos"), Var("rate", 1, "pos")
+    y.family = "Gaussian"
+    y.attrs = {"mean": Spec(["x"], lambda x: A @ np.asarray(x, dtype=float)), "cov": Spec([], lambda: 0.5)}
+    x.family = "Normal"
+    x.attrs = {"mean": Spec([], lambda: np.zeros(3)), "std": Spec(["std"], lambda std: 0.125 + float(np.asarray(std).reshape(-1)[0]))}
+    sd.family = "Gamma"
+    sd.attrs = {"shape": Spec([], lambda: 2.0), "rate": Spec(["rate"], lambda s: float(np.asarray(s).reshape(-1)[0]))}
+    sd.attrs["rate"].none = True
+    rt.family = "Normal"; rt.attrs = {"mean": Spec([], lambda: np.array([1.0])), "std": Spec([], lambda: 0.5)}
+    y.vals = [np.array([.5, 1.5, -2.]), np.array([0., 1., 0.])]
+    x.vals = [np.array([1., .25, -.5]), np.array([.5, 0., 1.])]
+    sd.vals = [np.array([0.75]), np.array([2.0])]
+    rt.vals = [np.array([1.0]), np.array([0.5])]
+    return [y, x, sd, rt]
 
 
 def multi_graph():
@@ -1163,12 +1250,15 @@ def run(ctx):
     ctx.trusted += ["leaf oracle: log-density of each original factor computed from a fresh fully specified cuqi distribution (Family(values).logpdf)",
                     "numpy (stacking of vectors)"]
     ctx.assumptions += ["every distribution is given an explicit name (no stack-based name inference); the Posterior created by the reduction has no name until one is set",
-                        "variable names differ from attribute names of the distribution families and from 'args'/'kwargs'/'_main_parameter'",
+                        "a variable is not called like a mutable variable of its OWN distribution, nor like 'args'/'kwargs'/'_main_parameter'; a hyper-parameter called like a mutable variable of a child enters that child through exactly that variable (callable argument or None attribute; other collisions: attribute stream, known finding attr:collision-other)",
                         "geometries of prior and forward model are consistent (default geometries)",
                         "float log-densities compared with the model's exact sum at rel+abs 1e-12 (largest error observed on the unchanged tree: 4e-16)"]
     errclass, nmiss = run_programs(ctx, cuqi, range(nprog), thorough)
     ctx.extra_cov["error_class_differences(model|impl)"] = errclass
     ctx.extra_cov["model_leaf_outside_table"] = nmiss
+    # attribute-level stream (Model/C01_attrs.lean): one distribution, its mutable variables, conditioning / evaluation programs
+    from harness.props.c01_attrs import run_attr_programs
+    run_attr_programs(ctx, cuqi, 400 * (ctx.scale if thorough else 1))
 
 
 def replay(ctx, payload):
